@@ -17,14 +17,17 @@ def run(ctx):
     ctx.assumptions += [
         'Groth16 two-chain (BLS12-377 inner, BW6-761 outer) with witness-supplied verifying key; inner circuits without commitments',
         'the outer circuit is evaluated by the test engine (satisfiability of the verifier gadget), not proven',
+        'edits that change the length of the public witness are outside the in-circuit verifier\'s input space (the size is fixed by the outer circuit)',
         'not covered: PLONK recursion, emulated pairings (BN254 / BLS12-381 / BW6 in BN254), Pedersen commitments in the inner proof, key switching',
     ]
     r1 = ctx.tlc('Groth16Protocol', 'Groth16Protocol_gen1.cfg', workers=1)
     rp = ctx.tlc('Groth16Protocol', 'Groth16Protocol_pad.cfg', workers=1)
-    behs = [b for b in r1.beh + rp.beh if b['shape'] in SHAPES]
+    # a public witness of another length cannot be expressed for the in-circuit verifier (its size is part of the circuit)
+    fits = lambda b: b['shape'] in SHAPES and not any(e['op'] in ('ExtendPub', 'TruncPub') for e in b['edits'])
+    behs = [b for b in r1.beh + rp.beh if fits(b)]
     if not quick:
         r2 = ctx.tlc('Groth16Protocol', 'Groth16Protocol_gen2.cfg', workers=1, timeout=1800)
-        pairs = [b for b in r2.beh if len(b['edits']) == 2 and b['shape'] in SHAPES]
+        pairs = [b for b in r2.beh if len(b['edits']) == 2 and fits(b)]
         ctx.rng.shuffle(pairs)
         behs += pairs[:600]
     if len(behs) < 40:
